@@ -251,7 +251,16 @@ def bounds_ordered(ctx, f, c, a, b):
     if f.name == '_group_matching':
         da, db = defs.get(getattr(a, 'id', ''), []), defs.get(getattr(b, 'id', ''), [])
         pop = any(isinstance(x, ast.Call) and isinstance(x.func, ast.Attribute) and x.func.attr == 'pop' and not x.args for x in da if isinstance(x, ast.AST))
-        cur = any(isinstance(x, ast.Name) for x in db if isinstance(x, ast.AST))
+
+        def is_current(vals):
+            # idx - offset computed in the loop, or a plain alias of such a variable
+            for x in vals:
+                if isinstance(x, ast.BinOp) and isinstance(x.op, ast.Sub):
+                    return True
+                if isinstance(x, ast.Name) and is_current([y for y in defs.get(x.id, []) if isinstance(y, ast.AST)]):
+                    return True
+            return False
+        cur = is_current([x for x in db if isinstance(x, ast.AST)])
         if pop and cur:
             return True, 'start popped from the stack of earlier (smaller) indices, end = current index'
         return False, f'start `{src(a)}` is not the most recently pushed opener index / end `{src(b)}` is not the current index'
